@@ -611,8 +611,9 @@ LOOP_CONSTRUCTS = [
     ("redshift", "COPY t FROM 's3://b' IAM_ROLE 'r' FORMAT AS JSON 'auto' REGION 'us'"),
     ("postgres", "COPY t (a, b) FROM 'f' WITH (FORMAT csv, HEADER true)"),
     ("", "DESCRIBE copy EXTENDED a . b"),
-    ("trino", "CREATE FUNCTION f(x INT) RETURNS INT BEGIN DECLARE y INT; SET y = 1; IF x > 1 THEN RETURN 1; ELSEIF x > 2 THEN RETURN 2; ELSE RETURN 3; END IF; "
-              "CASE WHEN x = 1 THEN RETURN 1; WHEN x = 2 THEN RETURN 2; END CASE; RETURN y; END"),
+    ("trino", "WITH FUNCTION f(x INT) RETURNS INT BEGIN DECLARE y INT; SET y = 1; IF x > 1 THEN RETURN 1; ELSEIF x > 2 THEN RETURN 2; ELSE RETURN 3; END IF; "
+              "CASE WHEN x = 1 THEN RETURN 1; WHEN x = 2 THEN RETURN 2; END CASE; WHILE y < 3 DO SET y = y + 1; END WHILE; RETURN y; END SELECT f(1)"),
+    ("trino", "WITH FUNCTION g(x INT) RETURNS INT BEGIN CASE x WHEN 1 THEN RETURN 1; ELSE RETURN 2; END CASE; l: LOOP LEAVE l; END LOOP; REPEAT SET x = 1; UNTIL x > 1 END REPEAT; RETURN 0; END SELECT g(2)"),
     ("clickhouse", "SELECT COLUMNS('a') APPLY (sum) APPLY (max) FROM t"),
     ("oracle", "SELECT /*+ LEADING(a b) USE_NL(a) INDEX(t i) */ a FROM t"),
     ("bigquery", "SELECT * FROM my-project.my-dataset.my-table"),
